@@ -135,9 +135,11 @@ fn consume_image(bytes: &Vec<u8>,hint: Option<&str>) -> String {
             let paths = d.glob("*",false).unwrap_or(Vec::new());
             let mut n = 0;
             for p in paths.iter().take(12) { if d.get(p).is_ok() { n += 1; } }
-            // and the sectors of the first tracks, read directly
-            let img = d.get_img();
-            for c in 0..3 { for h in 0..2 { for sec in 0..28 { let _ = img.read_sector(c,h,sec); } } }
+            // and the sectors of the first tracks, read directly (from the image loaded on its own: taking it out of the file system
+            // object would flush that object's buffers, which is a write)
+            if let Ok(mut img) = a2kit::create_img_from_bytestream(bytes,hint) {
+                for c in 0..3 { for h in 0..2 { for sec in 0..28 { let _ = img.read_sector(c,h,sec); } } }
+            }
             format!("mounted files={}",n)
         },
         Err(_) => {
